@@ -36,6 +36,26 @@ def handle : List String → List String → Option String
     if !wf L.leaves then some "unspecified"
     else some (Driver.verdict (acceptsUnmarshal L.leaves b res)
       "the positional protocol reading (exact value for in-domain bytes; error or zero for out-of-domain bytes; error for a fixed-value mismatch; never a panic)")
+  | [d, h], impl =>
+    if d = "dispatch-req" ∨ d = "dispatch-resp" then do
+      let b ← fromHex h
+      let table := if d = "dispatch-req" then Spec.Protocol.requests else Spec.Protocol.responses
+      let known : Option String :=
+        if b.length = 64 ∧ b.getD 0 0 = 0x17 then table.lookup (b.getD 1 0).toNat else none
+      match known, impl with
+      | none, ["err"] => some "ok"
+      | none, _ => some "bad a wrong length, a wrong protocol id or an unknown function code must be rejected"
+      | some n, "ok" :: n' :: vs =>
+        if n ≠ n' then some s!"bad the message type of function code {b.getD 1 0} is {n}"
+        else do
+          let L ← Spec.Protocol.all.lookup n
+          let vals ← vs.mapM parseVal
+          some (Driver.verdict (acceptsUnmarshal L.leaves b (.ok vals)) "the positional protocol reading")
+      | some n, ["err"] => do
+        let L ← Spec.Protocol.all.lookup n
+        some (Driver.verdict (acceptsUnmarshal L.leaves b .err) "all fields are in their domain: the message must decode")
+      | some _, _ => some "bad never a panic"
+    else none
   | "alias" :: _, impl => some (Driver.expect "same" impl)
   | _, _ => none
 
